@@ -170,6 +170,16 @@ theorem matchLoop_length (al bl : List Cmd) (bKeys : List Int) : ∀ (keys done 
     | some t => simp [matchLoop_length al bl bKeys rest]
     | none => simp [matchLoop_length al bl bKeys rest]
 
+/-- the device entries of the calls are the entries of `keys`, one call each, in the order of `keys` -/
+theorem matchLoop_a (al bl : List Cmd) (bKeys : List Int) : ∀ (keys done : List Int),
+    (matchLoop al bl bKeys keys done).1.map (·.a) = keys.map (entry al)
+  | [], _ => rfl
+  | s :: rest, done => by
+    rw [matchLoop_cons]
+    cases tgtOf al bl bKeys s with
+    | some t => simp [matchLoop_a al bl bKeys rest]
+    | none => simp [matchLoop_a al bl bKeys rest]
+
 theorem matchLoop_append (al bl : List Cmd) (bKeys : List Int) : ∀ (pre rest done : List Int),
     (matchLoop al bl bKeys (pre ++ rest) done).1 =
       (matchLoop al bl bKeys pre done).1 ++ (matchLoop al bl bKeys rest (matchLoop al bl bKeys pre done).2).1
